@@ -42,6 +42,11 @@ var c20Pool = []c20Line{
 	{bn.KwPrint + " " + bn.BLen + "(5);", "runtime", ""},
 	{"undefinedname;", "runtime", ""},
 	{bn.KwBreak + ";", "runtime", ""},
+	{bn.BLen + "([1, 2, 3]);", "echo", bn.KwPrint + " " + bn.BLen + "([1, 2, 3]);"},
+	{bn.BLen + " = 0; " + bn.BLen + "([1]);", "runtime", ""},
+	{bn.BAbs + " = nil;", "ok", ""},
+	{bn.KwPrint + " " + bn.BMax + "(1, 2) + " + bn.BMin + "(3, 4);", "ok", ""},
+	{bn.BMax + " = " + bn.BMin + ";", "ok", ""},
 	{"", "empty", ""},
 	{"   ", "empty", ""},
 }
